@@ -897,8 +897,8 @@ def Kind.isVff : Kind → Bool
   | .vff _ => true
   | _ => false
 
-/-- The exact exclusion of the no-half-write theorems (open finding
-    `C18-vec_from_file-half-write`): the call is safe unless the code engages the optional of a
+/-- The side condition of the model-level no-half-write theorems (it holds for every call on the
+    generated environment, `vff_current`): the call is safe unless the code engages the optional of a
     `vec_from_file` before parsing (`env.vffEmplaceFirst`), the addressed object *is* a
     `vec_from_file`, and the value is in the direct form (does not start with `@`). -/
 def HalfWriteSafe (env : Env) (lk : Kind) (value : Str) : Prop :=
@@ -952,7 +952,7 @@ theorem setLeaf_no_write (lk : Kind) (rem value : Str) (w : Option (Leaf R)) (e 
     addressed object (scalar, duration, vec, nested struct member, `vec_from_file` in the `@file`
     form) — the store equals its pre-state.  Only side condition: the exclusion `HalfWriteSafe`
     for the leaf the key addresses (false only for the direct form of a `vec_from_file` while
-    `env.vffEmplaceFirst` holds; `vff_half_write_current` shows the statement fails there). -/
+    `env.vffEmplaceFirst` holds — not the case for the generated environment, `vff_current`). -/
 theorem no_half_write (fuel : Nat) (k : Kind) (path : Path) (key value : Str) (st st' : Store R) (e : Err)
     (hx : ∀ p lk rem, addressed env fuel k path key = some (p, lk, rem) → HalfWriteSafe env lk value)
     (h : setParam env cfg pr fuel k path key value st = (st', some e)) : st' = st := by
@@ -1545,10 +1545,10 @@ theorem leaf_bool_generated (value : Str) :
 Only ever a top-level object (`set_params(x0, "x0", opts)` in the driver), never a member of a
 registered struct (`generated_env_vff_free`).  `setVff_outcomes` lists every way the setter can
 end.  The `@file` form never writes when it throws (`vff_file_rejected`).  The direct form
-(`name=1,2,3`) engages the optional before parsing while `env.vffEmplaceFirst` holds — as
-params.cpp does now (`vff_current`) — and then leaves a half-written object behind a throw
-(`vff_direct_half_write`; open finding `C18-vec_from_file-half-write`); with the flag off the same
-inputs throw without writing (`vff_direct_no_half_write`). -/
+(`name=1,2,3`) would engage the optional before parsing if `env.vffEmplaceFirst` held and then
+leave a half-written object behind a throw (`vff_direct_half_write`; that was finding
+`C18-vec_from_file-half-write`); params.cpp now parses into a local first (`vff_current`) and the
+same inputs throw without writing (`vff_direct_no_half_write`). -/
 
 theorem setVff_direct (files : Str → FileRow) (b : Bool) (x : Int) (value : Str) (hd : value.head? ≠ some '@') :
     setVff files b pr x value =
@@ -1717,27 +1717,25 @@ theorem declared_enumerator_sets_value {R : Type} [Sub R] [Mul R] [Div R] [LT R]
 theorem generated_env_vff_free (top : Kind) (h : Kind.isVff top = false) : VffFree env top :=
   ⟨h, by decide⟩
 
-/-- **Which params.cpp this is**: the direct form of `set_param(vec_from_file&, …)` engages
-    `v.value` first (`set_param(v.value.emplace(), s)`), then parses, then checks the size; the
-    `@file` form opens, reads, checks the size and only then stores.  Open finding
-    `C18-vec_from_file-half-write`: this statement and `vff_half_write_current` are the ones that
-    change when it is fixed. -/
+/-- **Which params.cpp this is**: the direct form of `set_param(vec_from_file&, …)` parses into a
+    local vector, checks the size and only then stores into `v.value`; the `@file` form opens,
+    reads, checks the size and only then stores (finding `C18-vec_from_file-half-write` fixed). -/
 theorem vff_current :
-    env.vffEmplaceFirst = true ∧ vffDirectSteps = ["emplace", "parse", "size"] ∧
+    env.vffEmplaceFirst = false ∧ vffDirectSteps = ["parse", "size", "store"] ∧
     vffFileSteps = ["open", "opencheck", "read", "size", "store", "catch"] := by decide
 
 /-- **No half-written structure, on the generated tables, as the code is now**: for every top-level
-    object that is not a `vec_from_file` (every parameter struct, enum, number, duration, vec),
-    every prefix, option list, parse oracle and file system: if `set_params` throws, the object is
-    exactly what the options before the failing one made it. -/
+    object (every parameter struct, enum, number, duration, vec, `vec_from_file`), every prefix,
+    option list, parse oracle and file system: if `set_params` throws, the object is exactly what
+    the options before the failing one made it.  No exclusion. -/
 theorem generated_no_half_write_current {R : Type} [Sub R] [Mul R] [Div R] [LT R] [DecidableLT R] [BEq R]
-    [DurScalar R] (cfg : DurCfg) (pr : Str → NumRes R) (top : Kind) (htop : Kind.isVff top = false)
+    [DurScalar R] (cfg : DurCfg) (pr : Str → NumRes R) (top : Kind)
     (pfx : Str) (opts : List Str) (st st' : Store R) (u : List Nat) (e : Err)
     (h : setParams env cfg pr top pfx opts st = (st', u, some e)) :
     ∃ before failing after u', opts = before ++ failing :: after ∧
       setParams env cfg pr top pfx before st = (st', u', none) :=
   set_params_no_half_write env cfg pr top pfx opts st st' u e
-    (vffFree_safe env top (generated_env_vff_free top htop) opts) h
+    (fun _ _ _ _ _ _ => Or.inl vff_current.1) h
 
 /-- **The option `prefix.path.to.field=value` sets that field — and no other** (the function the
     driver runs, on the generated tables).  For every instantiated parameter struct `top`, every
@@ -2333,32 +2331,32 @@ example : |(1500 : ℚ) * (1000000 : Nat) / (1000000000 : Nat) -
 /-- `vec_from_file` objects for the examples: `value = [1, 2]` at the top-level path `[]` -/
 def vffStore : Store ℚ := fun q => if q = [] then some (.o (some [1, 2])) else none
 
-/-- **The half-write, pinned on the generated environment** (open finding
-    `C18-vec_from_file-half-write`; flips when params.cpp parses into a local first): from
-    `value = [1, 2]`, `p=3,x` throws `Invalid value` and leaves `value` engaged and *empty*; with
-    `expected_size = 2`, `p=4,5,6` throws `Incorrect size` and leaves `[4, 5, 6]` stored. -/
-theorem vff_half_write_current :
-    (setParams env durCfg exDec (.vff (-1)) "p".toList ["p=3,x".toList] vffStore).1 [] = some (.o (some [])) ∧
+/-- **Rejected `vec_from_file` options leave the object untouched, pinned on the generated
+    environment** (finding `C18-vec_from_file-half-write` fixed): from `value = [1, 2]`, `p=3,x`
+    throws `Invalid value` and `p=4,5,6` with `expected_size = 2` throws `Incorrect size`; in both
+    cases `value` still reads `[1, 2]`. -/
+theorem vff_no_half_write_current :
+    (setParams env durCfg exDec (.vff (-1)) "p".toList ["p=3,x".toList] vffStore).1 [] = some (.o (some [1, 2])) ∧
     (setParams env durCfg exDec (.vff (-1)) "p".toList ["p=3,x".toList] vffStore).2 = ([1], some .numInvalid) ∧
-    (setParams env durCfg exDec (.vff 2) "p".toList ["p=4,5,6".toList] vffStore).1 [] = some (.o (some [4, 5, 6])) ∧
+    (setParams env durCfg exDec (.vff 2) "p".toList ["p=4,5,6".toList] vffStore).1 [] = some (.o (some [1, 2])) ∧
     (setParams env durCfg exDec (.vff 2) "p".toList ["p=4,5,6".toList] vffStore).2 = ([1], some .badSize) := by
   decide +kernel
 
 /-- the general statement behind it, hypotheses discharged on the generated environment -/
-example : setLeaf env durCfg exDec (.vff 2) [] "4,5,6".toList = (some (.o (some [4, 5, 6])), some .badSize) :=
-  (vff_direct_half_write env durCfg exDec vff_current.1 2 "4,5,6".toList (by decide)).2 [4, 5, 6]
-    (by decide +kernel) (by decide)
-
-/-- with the store-last order the same inputs throw and write nothing -/
-example : setLeaf { env with vffEmplaceFirst := false } durCfg exDec (.vff 2) [] "4,5,6".toList =
-      (none, some .badSize) ∧
-    setLeaf { env with vffEmplaceFirst := false } durCfg exDec (.vff (-1)) [] "3,x".toList =
-      (none, some .numInvalid) := by
+example : setLeaf env durCfg exDec (.vff 2) [] "4,5,6".toList = (none, some .badSize) ∧
+    setLeaf env durCfg exDec (.vff (-1)) [] "3,x".toList = (none, some .numInvalid) := by
   constructor
-  · exact (vff_direct_no_half_write { env with vffEmplaceFirst := false } durCfg exDec rfl 2 "4,5,6".toList
+  · exact (vff_direct_no_half_write env durCfg exDec vff_current.1 2 "4,5,6".toList
       (by decide)).2 [4, 5, 6] (by decide +kernel) (by decide)
-  · exact (vff_direct_no_half_write { env with vffEmplaceFirst := false } durCfg exDec rfl (-1) "3,x".toList
+  · exact (vff_direct_no_half_write env durCfg exDec vff_current.1 (-1) "3,x".toList
       (by decide)).1 [3] .numInvalid (by decide +kernel)
+
+/-- what the engage-first order (`set_param(v.value.emplace(), s)`, the code before the fix) did
+    with the same inputs: it threw after writing -/
+example : setLeaf { env with vffEmplaceFirst := true } durCfg exDec (.vff 2) [] "4,5,6".toList =
+    (some (.o (some [4, 5, 6])), some .badSize) :=
+  (vff_direct_half_write { env with vffEmplaceFirst := true } durCfg exDec rfl 2 "4,5,6".toList (by decide)).2
+    [4, 5, 6] (by decide +kernel) (by decide)
 
 /-- accepted values, direct and `@file` form (a file system with one file `row.csv` = `7,8`) -/
 def fsEnv : Env := { env with files := fun p => if p = "row.csv".toList then .row ["7".toList, "8".toList] else .missing }
@@ -2380,8 +2378,8 @@ example : setLeaf fsEnv durCfg exDec (.vff 2) [] "@nofile.csv".toList = (none, s
    (vff_file_rejected fsEnv durCfg exDec 3 "row.csv".toList).2.2 ["7".toList, "8".toList] [7, 8] (by decide)
      (by decide +kernel) (by decide)⟩
 
-/-- `no_half_write` with its exclusion discharged three ways: a non-`vec_from_file` leaf; the
-    `@file` form; and it really fails on the excluded point (`vff_half_write_current`) -/
+/-- `no_half_write` with its side condition discharged (here by the `@file` disjunct; on the
+    generated environment `Or.inl vff_current.1` discharges it for every call) -/
 example (st' : Store ℚ) (e : Err)
     (h : setParam env durCfg exDec 1 (.vff 2) [] [] "@nofile.csv".toList vffStore = (st', some e)) :
     st' = vffStore :=
